@@ -286,6 +286,38 @@ def history_stream(ctx, res):
             if now != stamp:
                 res.violate("C19:other-key-file-touched", "saving a copied %s created / changed the default key file although the application names its own" % what, case2)
                 stamp = now
+    # (a4) a failing save to a destination spelled relative to the home directory, over a file saved before: the file is still there, byte for byte
+    home = os.environ.get("HOME", "")
+    for fmt in ("json", "yaml", "bson", "xml"):
+        n[0] += 1
+        s = cc.Schema()
+        s.name = cc.StringField(default="first")
+        s.blob = cc.Field()
+        rel = "c19-tilde-%d.%s" % (n[0], fmt)
+        real = os.path.join(home, rel)
+        cfg = s()
+        case = {"stream": "failed-save-tilde", "fmt": fmt}
+        res.case(stable(case), kind="failed-save-tilde:" + fmt)
+        try:
+            cfg.save("~/" + rel, fmt)
+            before = open(real, "rb").read()
+        except Exception as e:  # noqa
+            res.hist["failed-save-tilde:first-save-raised:%s" % type(e).__name__] += 1
+            continue
+        cfg.blob = object()                       # no format can write this
+        cfg.name = "second"
+        try:
+            cfg.save("~/" + rel, fmt)
+            failed = False
+        except Exception:  # noqa
+            failed = True
+        if not failed:
+            res.hist["failed-save-tilde:second-save-accepted"] += 1
+            continue
+        after = open(real, "rb").read() if os.path.exists(real) else None
+        if after != before:
+            res.violate("C19:failed-save-damaged-file", "a failed save (destination spelled with '~') removed or changed the previously saved file",
+                        dict(case, file_still_there=after is not None))
     # (a3) a configuration that got SHORTER saved over the file of the longer one: the file holds exactly what serialisation produced
     for fmt in FORMATS:
         n[0] += 1
